@@ -1,0 +1,248 @@
+//go:build verif
+
+package template
+
+import (
+	"bytes"
+	"text/template/parse"
+)
+
+// This file only exports unexported values and functions to verification
+// tooling. It is compiled only with the "verif" build tag.
+
+// VerifRegexps returns the source text of the package-level regular expressions.
+func VerifRegexps() map[string]string {
+	return map[string]string{
+		"dataAttributeNamePattern":              dataAttributeNamePattern.String(),
+		"endsWithCharRefPrefixPattern":          endsWithCharRefPrefixPattern.String(),
+		"startsWithFullySpecifiedSchemePattern": startsWithFullySpecifiedSchemePattern.String(),
+		"endsWithPercentEncodingPrefixPattern":  endsWithPercentEncodingPrefixPattern.String(),
+		"containsWhitespaceOrControlPattern":    containsWhitespaceOrControlPattern.String(),
+	}
+}
+
+// VerifPolicy is a dump of the sanitization policy tables.
+type VerifPolicy struct {
+	ContextNames      map[int]string            // sanitizationContext -> name
+	SanitizerNames    map[int]string            // sanitizationContext -> sanitizer function name
+	ElementSpecific   map[string]map[string]int // attr -> element -> sanitizationContext
+	GlobalAttr        map[string]int
+	ElementContent    map[string]int
+	AllowedVoid       map[string]bool
+	URLLinkRelVals    map[string]bool
+	EnumValues        map[string]map[string]bool // sanitizer name -> allowed words
+	IsEnum            map[int]bool
+	IsURLOrTRU        map[int]bool
+	HasPrefixValidtor map[int]string
+}
+
+func VerifPolicyTables() VerifPolicy {
+	p := VerifPolicy{
+		ContextNames:      map[int]string{},
+		SanitizerNames:    map[int]string{},
+		ElementSpecific:   map[string]map[string]int{},
+		GlobalAttr:        map[string]int{},
+		ElementContent:    map[string]int{},
+		AllowedVoid:       map[string]bool{},
+		URLLinkRelVals:    map[string]bool{},
+		EnumValues:        map[string]map[string]bool{},
+		IsEnum:            map[int]bool{},
+		IsURLOrTRU:        map[int]bool{},
+		HasPrefixValidtor: map[int]string{},
+	}
+	for i := 1; i < len(sanitizationContextInfo); i++ {
+		sc := sanitizationContext(i)
+		p.ContextNames[i] = sc.String()
+		p.SanitizerNames[i] = sc.sanitizerName()
+		p.IsEnum[i] = sc.isEnum()
+		p.IsURLOrTRU[i] = sc.isURLorTrustedResourceURL()
+	}
+	for a, m := range elementSpecificAttrValSanitizationContext {
+		p.ElementSpecific[a] = map[string]int{}
+		for e, sc := range m {
+			p.ElementSpecific[a][e] = int(sc)
+		}
+	}
+	for a, sc := range globalAttrValSanitizationContext {
+		p.GlobalAttr[a] = int(sc)
+	}
+	for e, sc := range elementContentSanitizationContext {
+		p.ElementContent[e] = int(sc)
+	}
+	for e, b := range allowedVoidElements {
+		p.AllowedVoid[e] = b
+	}
+	for e, b := range urlLinkRelVals {
+		p.URLLinkRelVals[e] = b
+	}
+	p.EnumValues[sanitizeAsyncEnumFuncName] = sanitizeAsyncEnumValues
+	p.EnumValues[sanitizeDirEnumFuncName] = sanitizeDirEnumValues
+	p.EnumValues[sanitizeLoadingEnumFuncName] = sanitizeLoadingEnumValues
+	p.EnumValues[sanitizeTargetEnumFuncName] = sanitizeTargetEnumValues
+	return p
+}
+
+// VerifTables returns the small tables of transition.go and escape.go.
+type VerifSmallTables struct {
+	SpecialElements    map[string]bool
+	VoidElements       map[string]bool
+	DelimEnds          []string
+	TagEndSeparators   string
+	PredefinedEscapers map[string]bool
+	EquivEscapers      map[string]string
+	StateNames         []string
+	DelimNames         []string
+}
+
+func VerifTables() VerifSmallTables {
+	t := VerifSmallTables{
+		SpecialElements:    specialElements,
+		VoidElements:       voidElements,
+		DelimEnds:          delimEnds[:],
+		TagEndSeparators:   string(tagEndSeparators),
+		PredefinedEscapers: predefinedEscapers,
+		EquivEscapers:      equivEscapers,
+	}
+	for s := stateText; s <= stateError; s++ {
+		t.StateNames = append(t.StateNames, s.String())
+	}
+	for d := delimNone; d <= delimSpaceOrTagEnd; d++ {
+		t.DelimNames = append(t.DelimNames, d.String())
+	}
+	return t
+}
+
+// VerifContext mirrors context with exported fields.
+type VerifContext struct {
+	State         int
+	Delim         int
+	ElemName      string
+	ElemNames     []string
+	AttrName      string
+	AttrValue     string
+	AttrAmbiguous bool
+	AttrNames     []string
+	Err           bool
+	ErrCode       int
+	ScriptType    string
+	LinkRel       string
+}
+
+func verifFromContext(c context) VerifContext {
+	v := VerifContext{
+		State: int(c.state), Delim: int(c.delim),
+		ElemName: c.element.name, ElemNames: c.element.names,
+		AttrName: c.attr.name, AttrValue: c.attr.value, AttrAmbiguous: c.attr.ambiguousValue, AttrNames: c.attr.names,
+		ScriptType: c.scriptType, LinkRel: c.linkRel,
+	}
+	if c.err != nil {
+		v.Err = true
+		v.ErrCode = int(c.err.ErrorCode)
+	}
+	return v
+}
+
+func verifToContext(v VerifContext) context {
+	c := context{
+		state: state(v.State), delim: delim(v.Delim),
+		element:    element{name: v.ElemName, names: v.ElemNames},
+		attr:       attr{name: v.AttrName, value: v.AttrValue, ambiguousValue: v.AttrAmbiguous, names: v.AttrNames},
+		scriptType: v.ScriptType, linkRel: v.LinkRel,
+	}
+	if v.Err {
+		c.err = &Error{ErrorCode: ErrorCode(v.ErrCode)}
+	}
+	return c
+}
+
+func VerifContextAfterText(v VerifContext, s []byte) (VerifContext, int) {
+	c, n := contextAfterText(verifToContext(v), s)
+	return verifFromContext(c), n
+}
+
+// VerifEscapeText runs escapeText on a single text node; it returns the end
+// context, whether the node was edited and the rewritten text.
+func VerifEscapeText(v VerifContext, s []byte, cspCompatible bool) (VerifContext, bool, []byte) {
+	ns := &nameSpace{set: make(map[string]*Template), cspCompatible: cspCompatible}
+	ns.esc = makeEscaper(ns)
+	n := &parse.TextNode{NodeType: parse.NodeText, Text: append([]byte(nil), s...)}
+	c := ns.esc.escapeText(verifToContext(v), n)
+	out, ok := ns.esc.textNodeEdits[n]
+	return verifFromContext(c), ok, out
+}
+
+func VerifSanitizerForContext(v VerifContext) ([]string, error) {
+	return sanitizerForContext(verifToContext(v))
+}
+
+func VerifSanitizationContextForAttrVal(element, attr, linkRel string) (int, error) {
+	sc, err := sanitizationContextForAttrVal(element, attr, linkRel)
+	return int(sc), err
+}
+
+func VerifSanitizationContextForElementContent(element string) (int, error) {
+	sc, err := sanitizationContextForElementContent(element)
+	return int(sc), err
+}
+
+func VerifValidateURLPrefix(p string) error { return validateURLPrefix(p) }
+func VerifValidateTrustedResourceURLPrefix(p string) error {
+	return validateTrustedResourceURLPrefix(p)
+}
+func VerifDecodeURLPrefix(p string) (string, error) { return decodeURLPrefix(p) }
+func VerifValidateDoesNotEndsWithCharRefPrefix(p string) error {
+	return validateDoesNotEndsWithCharRefPrefix(p)
+}
+func VerifMangle(v VerifContext, name string) string { return mangle(verifToContext(v), name) }
+func VerifNudge(v VerifContext) VerifContext         { return verifFromContext(nudge(verifToContext(v))) }
+func VerifJoin(a, b VerifContext) VerifContext {
+	return verifFromContext(join(verifToContext(a), verifToContext(b), nil, "if"))
+}
+func VerifIsJsTemplateBalanced(s []byte) bool {
+	return isJsTemplateBalanced(bytes.NewBuffer(s)) == nil
+}
+
+// VerifSanitizer applies the named run-time sanitizer of the funcs map.
+func VerifSanitizerFuncNames() []string {
+	var names []string
+	for k := range funcs {
+		names = append(names, k)
+	}
+	return names
+}
+
+// VerifParse parses text into t without requiring a compile-time constant.
+func VerifParse(t *Template, text string) (*Template, error) { return t.Parse(stringConstant(text)) }
+
+// VerifTrustedSourceFromConstantDir calls the constructor with a run-time dir.
+func VerifTrustedSourceFromConstantDir(dir string, src string, filename string) (TrustedSource, error) {
+	return TrustedSourceFromConstantDir(stringConstant(dir), TrustedSource{src}, filename)
+}
+
+// VerifState exposes the observable part of a template's state.
+type VerifTemplateState struct {
+	Escaped     bool
+	EscapeErr   int // 0 = not yet, 1 = ok, 2 = error
+	TreeNil     bool
+	TextTreeNil bool
+	OutputLen   int
+	SetNames    []string
+}
+
+func VerifStateOf(t *Template) VerifTemplateState {
+	t.nameSpace.mu.Lock()
+	defer t.nameSpace.mu.Unlock()
+	s := VerifTemplateState{Escaped: t.nameSpace.escaped, TreeNil: t.Tree == nil, TextTreeNil: t.text == nil || t.text.Tree == nil, OutputLen: len(t.nameSpace.esc.output)}
+	switch {
+	case t.escapeErr == nil:
+		s.EscapeErr = 0
+	case t.escapeErr == errEscapeOK:
+		s.EscapeErr = 1
+	default:
+		s.EscapeErr = 2
+	}
+	for n := range t.nameSpace.set {
+		s.SetNames = append(s.SetNames, n)
+	}
+	return s
+}
